@@ -8,8 +8,9 @@ Monitors (the property itself on what the implementation did, independent of the
   M3  every consumer (distance 1, 2, exit handler, step of a retry run) sees TrimSpace(stdout) of the producer, and the
       producer does finish.
 Model and check describe the REPAIRED code (ff6cf28 F11c, 0f1faec F11b, f5eca82 F12c).  Known findings that remain (narrow
-classes): F11a record-unquoted, quoted-trailing-backslash (what is left of F11b), F11d output-captures-stderr,
-output-exceeds-exec-string (a captured value longer than execve takes in one environment string: every later step fails
+classes): quoted-trailing-backslash (what is left of F11b; also when recording), positional-eq-exported (what is
+left of F11a, fixed by 92cc1cc: a positional value that looks like NAME=value is exported as NAME by a retry/restart),
+F11d output-captures-stderr, output-exceeds-exec-string (a captured value longer than execve takes in one environment string: every later step fails
 to start).
 """
 import base64
@@ -60,10 +61,68 @@ def item_class(it):
     return None
 
 
+# ---- model.Params since 92cc1cc (mirror of quote_param / V1 of Params/Model.v) ---------------------------------
+SIMPLE_BAD = RE2_WS | {34, 96}
+
+
+def qsplit(st):
+    i = st.find(b"=")
+    if i > 0 and all(c not in RE2_WS and c != 34 for c in st[:i]):
+        return st[:i], st[i + 1:]
+    return b"", st
+
+
+def plain(nm, v):
+    return len(v) > 0 and all(c not in SIMPLE_BAD for c in v) and (len(nm) > 0 or b"=" not in v)
+
+
+def bs_ok(st):
+    nm, v = qsplit(st)
+    return plain(nm, v) or not v.endswith(b"\\")
+
+
 def v1_pair(n, v):
-    if len(n) == 0:
-        return word_ok(v) and no_inner_eq(v)
-    return name_ok(n) and word_ok(v)
+    st = (n + b"=" + v) if n else v
+    if not bs_ok(st):
+        return False
+    return name_ok(n) if n else qsplit(v)[0] == b""
+
+
+def pos_eq_name(it):
+    """The name a retry / restart exports for a positional item that looks like NAME=value (when it is a plain word)."""
+    import re as _re
+    if it.get("name"):
+        return None
+    nm = qsplit(b(it["value"]))[0].decode("utf-8", "replace")
+    return nm if _re.fullmatch(r"[A-Za-z_][A-Za-z0-9_]*", nm) else None
+
+
+def roundtrip_class(items):
+    for it in items:
+        n, v = b(it.get("name", "")), b(it["value"])
+        if not bs_ok((n + b"=" + v) if n else v):
+            return "quoted-trailing-backslash"
+    for it in items:
+        if not v1_pair(b(it.get("name", "")), b(it["value"])):
+            return "positional-eq-exported"
+    return "v1"
+
+
+def exported_mismatch(c, items):
+    """A retry / restart must not export anything the first run did not."""
+    pr = c.get("probes") or {}
+    for it in items:
+        nm = pos_eq_name(it)
+        if nm is None:
+            continue
+        for who in ("env", "handler"):
+            p1, p2 = pr.get(who), pr.get("re-" + who)
+            if not p1 or not p2 or p1.get("env") is None or p2.get("env") is None:
+                continue
+            if p1["env"].get(nm) != p2["env"].get(nm):
+                return ("the positional value %r comes back as a NAMED parameter: $%s = %r in the re-run, %r in the first run"
+                        % (it["value"], nm, unb64(p2["env"].get(nm)), unb64(p1["env"].get(nm))))
+    return None
 
 
 def stringify(it):
@@ -187,12 +246,11 @@ def monitor(c):
             if r:
                 return (r, cls0)
         if st == "loop":
-            pairs_ok = all(v1_pair(b(it.get("name", "")), b(it["value"])) for it in items)
-            cls1 = {"class": "v1" if pairs_ok else "record-unquoted", "stream": "params"}
+            cls1 = {"class": roundtrip_class(items), "stream": "params"}
             if c.get("params2") != c["params"]:
                 return ("record -> re-parse changes the parameters: first run %r, recorded %r, re-used as %r"
                         % (c["params"], c.get("recorded"), c.get("params2")), cls1)
-            r = seen_mismatch(c, items, "re-")
+            r = seen_mismatch(c, items, "re-") or exported_mismatch(c, items)
             if r:
                 return ("after record -> re-parse: " + r, cls1)
         return None
@@ -255,14 +313,14 @@ def monitor_subst(c):
     r = seen_mismatch(c, items, "")
     if r:
         return (r, cls0)
-    ok1 = all(v1_pair(b(it.get("name", "")), b(it["value"])) for it in items)
-    cls1 = {"class": "recorded-values" if ok1 else "record-unquoted", "stream": "subst" if ok1 else "params"}
+    rcl = roundtrip_class(items)
+    cls1 = {"class": "recorded-values" if rcl == "v1" else rcl, "stream": "subst" if rcl == "v1" else "params"}
     if c.get("err"):
         return ("re-load of the recorded string failed: %s" % c["err"], cls1)
     if c.get("params2") != c["params"]:
         return ("the recorded parameters %r are re-used as %r in a process where $C11VAR=beta; the run saw %r"
                 % (c.get("recorded"), c.get("params2"), c["params"]), cls1)
-    r = seen_mismatch(c, items, "re-")
+    r = seen_mismatch(c, items, "re-") or exported_mismatch(c, items)
     if r:
         return ("after record -> re-load with $C11VAR=beta: " + r, cls1)
     return None
@@ -536,7 +594,7 @@ def run(ctx, replay_cases=None):
         "the process environment (execve, os.Setenv, exec.Cmd env de-duplication) is observed through real children, not modelled",
     ]
     ctx.assumptions = ["C11_parse_doc_partial: items in V0 (decidable: quoted text is arbitrary except a final backslash; words / names as documented)",
-                       "C11_roundtrip: parsed pairs in V1 (no white space, no quote, non-empty, no leading back-tick, positional without inner =)",
+                       "C11_roundtrip_partial: parsed pairs in V1 (nothing that must be quoted ends in a backslash; no positional value of the shape NAME=value)",
                        "C11_output: no other producer of the same variable name between producer and consumer"]
     if ctx.tier == "thorough":
         ctx.coqchk()
